@@ -5,9 +5,9 @@ namespace Logos
 theorem getD_lt {α} (l : List α) (j : Nat) (d : α) (h : j < l.length) : l.getD j d = l[j] := by
   simp [List.getD_eq_getElem?_getD, h]
 
-theorem lexerNext_inRange (env : ApiEnv) (hA : WF env.gA) (hB : WF env.gB) (hp : env.isPrefix = false)
+theorem lexerNext_inRange (env : ApiEnv) (hA : WF env.gA) (hB : WF env.gB)
     (hcbA : NoBump env.cbA) (hcbB : NoBump env.cbB) (hb : ∀ b ∈ env.src, b < 256)
-    (st : LexSt) (h : st.inRange env.src.length) :
+    (st : LexSt) (hp : st.pfx = false) (h : st.inRange env.src.length) :
     (lexerNext env st).1.inRange env.src.length := by
   have hG : WF (env.graph st.ty) := by unfold ApiEnv.graph; split <;> assumption
   have hC : NoBump (env.cb st.ty) := by unfold ApiEnv.cb; split <;> assumption
@@ -34,10 +34,22 @@ theorem lexerBump_inRange (env : ApiEnv) (st : LexSt) (n : Nat) (h : st.inRange 
   · simp only [hc, if_false]
     exact h
 
-theorem apiStep_inRange (env : ApiEnv) (hA : WF env.gA) (hB : WF env.gB) (hp : env.isPrefix = false)
+/-- the lexer is an ordinary one and its span is valid -/
+def LexSt.okPlain (len : Nat) (st : LexSt) : Prop := st.pfx = false ∧ st.inRange len
+
+theorem lexerNext_pfx (env : ApiEnv) (st : LexSt) : (lexerNext env st).1.pfx = st.pfx := by
+  unfold lexerNext
+  simp only
+  cases nextLoop (walkAttempt (env.graph st.ty) st.pfx env.src) (env.cb st.ty) env.utf8 env.src (env.src.length + 2) st.stop <;> rfl
+
+theorem lexerBump_pfx (env : ApiEnv) (st : LexSt) (n : Nat) : (lexerBump env st n).1.pfx = st.pfx := by
+  unfold lexerBump
+  cases bumpFixed env.isB ⟨st.start, st.stop⟩ n <;> rfl
+
+theorem apiStep_inRange (env : ApiEnv) (hA : WF env.gA) (hB : WF env.gB)
     (hcbA : NoBump env.cbA) (hcbB : NoBump env.cbB) (hb : ∀ b ∈ env.src, b < 256)
-    (op : ApiOp) (pool : List LexSt) (h : ∀ st ∈ pool, st.inRange env.src.length) :
-    ∀ st ∈ (apiStep env pool op).1, st.inRange env.src.length := by
+    (op : ApiOp) (hop : op ≠ .fresh true) (pool : List LexSt) (h : ∀ st ∈ pool, st.okPlain env.src.length) :
+    ∀ st ∈ (apiStep env pool op).1, st.okPlain env.src.length := by
   unfold apiStep
   split
   · exact h
@@ -46,60 +58,100 @@ theorem apiStep_inRange (env : ApiEnv) (hA : WF env.gA) (hB : WF env.gB) (hp : e
       cases pool with
       | nil => simp at hne
       | cons a l => simp
-    have hpick : ∀ i, (pool.getD (i % pool.length) ⟨0, 0, 0, 0⟩).inRange env.src.length := by
+    have hpick : ∀ i, (pool.getD (i % pool.length) ⟨0, 0, 0, 0, false⟩).okPlain env.src.length := by
       intro i
       have hj : i % pool.length < pool.length := Nat.mod_lt _ hlen
       rw [getD_lt _ _ _ hj]
       exact h _ (List.getElem_mem hj)
-    have hset : ∀ j x, x.inRange env.src.length → ∀ st ∈ setAt pool j x, st.inRange env.src.length := by
+    have hset : ∀ j x, x.okPlain env.src.length → ∀ st ∈ setAt pool j x, st.okPlain env.src.length := by
       intro j x hx st hst
       rcases List.mem_or_eq_of_mem_set hst with h1 | h1
       · exact h _ h1
       · rw [h1]; exact hx
+    have hnext : ∀ i, ((lexerNext env (pool.getD (i % pool.length) ⟨0, 0, 0, 0, false⟩)).1).okPlain env.src.length :=
+      fun i => ⟨(lexerNext_pfx env _).trans (hpick i).1,
+        lexerNext_inRange env hA hB hcbA hcbB hb _ (hpick i).1 (hpick i).2⟩
     cases op with
-    | next i => exact hset _ _ (lexerNext_inRange env hA hB hp hcbA hcbB hb _ (hpick i))
-    | snext i => exact hset _ _ (lexerNext_inRange env hA hB hp hcbA hcbB hb _ (hpick i))
-    | bump i n => exact hset _ _ (lexerBump_inRange env _ n (hpick i))
+    | next i => exact hset _ _ (hnext i)
+    | snext i => exact hset _ _ (hnext i)
+    | bump i n => exact hset _ _ ⟨(lexerBump_pfx env _ n).trans (hpick i).1, lexerBump_inRange env _ n (hpick i).2⟩
     | clone i =>
       intro st hst
       simp only [List.mem_append, List.mem_singleton] at hst
       rcases hst with h1 | h1
       · exact h _ h1
       · rw [h1]; exact hpick i
-    | morph i => exact hset _ _ (hpick i)
+    | morph i => exact hset _ _ ⟨(hpick i).1, (hpick i).2⟩
+    | fresh p =>
+      intro st hst
+      simp only [List.mem_append, List.mem_singleton] at hst
+      rcases hst with h1 | h1
+      · exact h _ h1
+      · rw [h1]
+        cases p with
+        | true => exact absurd rfl hop
+        | false => exact ⟨rfl, by simp [LexSt.inRange]⟩
+    | cloneFrom i j =>
+      simp only
+      split
+      · exact hset _ _ (hpick j)
+      · exact h
 
 /-- **C14, spans stay valid in every call order.** For two well-formed graphs over one source and
 any finite sequence of `next`, `bump` (any `n`: out-of-range bumps panic and leave the lexer
-unchanged), `clone`, `morph` and `spanned().next()` calls on an ordinary (non-partial) lexer pool,
-every lexer of the pool keeps `start ≤ end ≤ len`. -/
-theorem api_in_range (env : ApiEnv) (hA : WF env.gA) (hB : WF env.gB) (hp : env.isPrefix = false)
+unchanged), `clone`, `clone_from`, `morph` and `spanned().next()` calls on a pool of ordinary (non-partial)
+lexers, every lexer of the pool keeps `start ≤ end ≤ len` (for partial lexers: `api_in_range_any`). -/
+theorem api_in_range (env : ApiEnv) (hA : WF env.gA) (hB : WF env.gB)
     (hcbA : NoBump env.cbA) (hcbB : NoBump env.cbB) (hb : ∀ b ∈ env.src, b < 256)
-    (ops : List ApiOp) (pool : List LexSt) (h : ∀ st ∈ pool, st.inRange env.src.length) :
+    (ops : List ApiOp) (hops : ∀ op ∈ ops, op ≠ .fresh true) (pool : List LexSt)
+    (h : ∀ st ∈ pool, st.okPlain env.src.length) :
     ∀ st ∈ apiRun env pool ops, st.inRange env.src.length := by
+  suffices hs : ∀ st ∈ apiRun env pool ops, st.okPlain env.src.length from fun st hst => (hs st hst).2
   induction ops generalizing pool with
   | nil => exact h
   | cons op ops ih =>
     unfold apiRun
-    exact ih _ (apiStep_inRange env hA hB hp hcbA hcbB hb op pool h)
+    exact ih (fun o ho => hops o (List.mem_cons_of_mem _ ho)) _
+      (apiStep_inRange env hA hB hcbA hcbB hb op (hops op (List.mem_cons_self)) pool h)
+
+/-- **`clone_from` makes the target an exact copy of the source lexer, mode included**: afterwards the two
+lexers are equal, so every later call gives the same result on both -/
+theorem cloneFrom_copies (env : ApiEnv) (pool : List LexSt) (i j : Nat) (hne : pool ≠ [])
+    (hty : (pool.getD (i % pool.length) ⟨0, 0, 0, 0, false⟩).ty = (pool.getD (j % pool.length) ⟨0, 0, 0, 0, false⟩).ty) :
+    ((apiStep env pool (.cloneFrom i j)).1).getD (i % pool.length) ⟨0, 0, 0, 0, false⟩ =
+      pool.getD (j % pool.length) ⟨0, 0, 0, 0, false⟩ := by
+  have hlen : 0 < pool.length := List.length_pos_iff.mpr hne
+  have hj : i % pool.length < pool.length := Nat.mod_lt _ hlen
+  unfold apiStep
+  simp only [List.isEmpty_iff, hne, if_false, hty, if_true, setAt]
+  rw [getD_lt _ _ _ (by simpa using hj)]
+  simp
+
+/-- `clone` copies the mode too -/
+theorem clone_copies_mode (env : ApiEnv) (pool : List LexSt) (i : Nat) (hne : pool ≠ []) :
+    (((apiStep env pool (.clone i)).1).getD pool.length ⟨0, 0, 0, 0, false⟩) =
+      pool.getD (i % pool.length) ⟨0, 0, 0, 0, false⟩ := by
+  unfold apiStep
+  simp [hne, List.getD_eq_getElem?_getD]
 
 /-- `clone` leaves every existing lexer untouched and appends an identical one -/
 theorem clone_independent (env : ApiEnv) (pool : List LexSt) (i : Nat) (hne : pool ≠ []) :
-    (apiStep env pool (.clone i)).1 = pool ++ [pool.getD (i % pool.length) ⟨0, 0, 0, 0⟩] := by
+    (apiStep env pool (.clone i)).1 = pool ++ [pool.getD (i % pool.length) ⟨0, 0, 0, 0, false⟩] := by
   unfold apiStep
   simp [hne]
 
 /-- `morph` preserves position and extras -/
 theorem morph_preserves (env : ApiEnv) (pool : List LexSt) (i : Nat) (hne : pool ≠ []) :
-    let st := pool.getD (i % pool.length) ⟨0, 0, 0, 0⟩
-    let st' := ((apiStep env pool (.morph i)).1).getD (i % pool.length) ⟨0, 0, 0, 0⟩
-    st'.start = st.start ∧ st'.stop = st.stop ∧ st'.extras = st.extras ∧ st'.ty ≠ st.ty := by
+    let st := pool.getD (i % pool.length) ⟨0, 0, 0, 0, false⟩
+    let st' := ((apiStep env pool (.morph i)).1).getD (i % pool.length) ⟨0, 0, 0, 0, false⟩
+    st'.start = st.start ∧ st'.stop = st.stop ∧ st'.extras = st.extras ∧ st'.pfx = st.pfx ∧ st'.ty ≠ st.ty := by
   have hlen : 0 < pool.length := List.length_pos_iff.mpr hne
   have hj : i % pool.length < pool.length := Nat.mod_lt _ hlen
   unfold apiStep
   simp only [List.isEmpty_iff, hne, if_false, setAt]
   rw [getD_lt _ _ _ (by simpa using hj)]
   simp only [List.getElem_set_self]
-  refine ⟨trivial, trivial, trivial, ?_⟩
+  refine ⟨trivial, trivial, trivial, trivial, ?_⟩
   split <;> omega
 
 /-- morphing to the other token type and back gives the original pool -/
@@ -126,7 +178,7 @@ theorem morph_twice (env : ApiEnv) (pool : List LexSt) (i : Nat) (hne : pool ≠
       = pool[i % pool.length] := by
     generalize pool[i % pool.length] = s at ht ⊢
     cases s with
-    | mk ty a b c =>
+    | mk ty a b c d =>
       simp only at ht ⊢
       congr
       split <;> split <;> omega
